@@ -53,13 +53,36 @@ theorem notify_results_ignored (cfg : Config) (x y : Ctx) (h : Sim x y) :
 example : Sim (mkCtx exS { sends := [false, true] }) (mkCtx exS { sends := [true, false, false] }) :=
   ⟨rfl, rfl, rfl, rfl⟩
 
-/-- spelled out for one function and arbitrary oracle lists: same state, same (target, json)
-    sequence -/
-theorem notifyFetchers_any_oracle (x : Ctx) (e : Element) (ev : String) (l : List Bool) :
-    (notifyFetchers { x with sends := l } e ev).st = (notifyFetchers x e ev).st ∧
-    (notifyFetchers { x with sends := l } e ev).out.map strip = (notifyFetchers x e ev).out.map strip := by
-  have := notifyFetchers_sim (Sim.of_sends x l) e ev
-  exact ⟨this.1.symm, this.2.2.2.symm⟩
+/-- The same, spelled out: run any of the seven functions from the same context with ANY other
+    oracle list `l` — the post-state is the same and the same (target, json) sequence is sent. -/
+theorem results_ignored_any_oracle (cfg : Config) (x : Ctx) (l : List Bool) :
+    let y : Ctx := { x with sends := l }
+    (∀ e ev, (notifyFetchers y e ev).st = (notifyFetchers x e ev).st ∧
+      (notifyFetchers y e ev).out.map strip = (notifyFetchers x e ev).out.map strip) ∧
+    (∀ e, (findFetchersForElement cfg y e).1.st = (findFetchersForElement cfg x e).1.st ∧
+      (findFetchersForElement cfg y e).1.out.map strip = (findFetchersForElement cfg x e).1.out.map strip ∧
+      (findFetchersForElement cfg y e).2 = (findFetchersForElement cfg x e).2) ∧
+    (∀ fp f, (offerAllElements cfg y fp f).st = (offerAllElements cfg x fp f).st ∧
+      (offerAllElements cfg y fp f).out.map strip = (offerAllElements cfg x fp f).out.map strip) ∧
+    (∀ e, (removeElement y e).st = (removeElement x e).st ∧
+      (removeElement y e).out.map strip = (removeElement x e).out.map strip) ∧
+    (∀ c, (freePeerResources y c).st = (freePeerResources x c).st ∧
+      (freePeerResources y c).out.map strip = (freePeerResources x c).out.map strip) ∧
+    (∀ t, (timeoutFired y t).st = (timeoutFired x t).st ∧
+      (timeoutFired y t).out.map strip = (timeoutFired x t).out.map strip) ∧
+    (∀ p msg payload typ, (routingResponse y p msg payload typ).1.st = (routingResponse x p msg payload typ).1.st ∧
+      (routingResponse y p msg payload typ).1.out.map strip = (routingResponse x p msg payload typ).1.out.map strip ∧
+      (routingResponse y p msg payload typ).2 = (routingResponse x p msg payload typ).2) := by
+  intro y
+  have h : Sim x y := Sim.of_sends x l
+  refine ⟨fun e ev => ?_, fun e => ?_, fun fp f => ?_, fun e => ?_, fun c => ?_, fun t => ?_, fun p msg pl typ => ?_⟩
+  · have := notifyFetchers_sim h e ev; exact ⟨this.1.symm, this.2.2.2.symm⟩
+  · have := findFetchersForElement_sim cfg h e; exact ⟨this.1.1.symm, this.1.2.2.2.symm, this.2.symm⟩
+  · have := offerAllElements_sim cfg h fp f; exact ⟨this.1.symm, this.2.2.2.symm⟩
+  · have := removeElement_sim h e; exact ⟨this.1.symm, this.2.2.2.symm⟩
+  · have := freePeerResources_sim h c; exact ⟨this.1.symm, this.2.2.2.symm⟩
+  · have := timeoutFired_sim h t; exact ⟨this.1.symm, this.2.2.2.symm⟩
+  · have := routingResponse_sim h p msg pl typ; exact ⟨this.1.1.symm, this.1.2.2.2.symm, this.2.symm⟩
 
 /-- every request handler except set/call: same state, same outputs up to results, same response -/
 theorem handlers_results_ignored (cfg : Config) (x y : Ctx) (h : Sim x y) (p : Peer) (req : Json) :
